@@ -133,7 +133,8 @@ var c04lab *svcLab
 func c04Lab() *svcLab {
 	if c04lab == nil {
 		os.Stdout = devNull // smtp and ntp print client data to stdout; records go through `out`, which holds the real one
-		l, err := newSvcLab("ftp", "telnet", "smtp", "redis", "memcached", "memcachedu", "http", "echo", "echou", "dns", "tftp", "snmp", "counterstrike")
+		l, err := newSvcLab("ftp", "telnet", "smtp", "redis", "memcached", "memcachedu", "http", "echo", "echou", "dns", "tftp", "snmp", "counterstrike",
+			"elasticsearch", "docker", "eos", "ethereum", "cwmp", "ipp", "ldap")
 		if err != nil {
 			panic(err)
 		}
@@ -694,11 +695,19 @@ func init() {
 			}
 			runSeg(f[0], f[1], segs, nil, false)
 		}
+		if len(f) >= 3 && f[0] == "@req" {
+			var segs [][]byte
+			for _, h := range f[2:] {
+				segs = append(segs, unhx(h))
+			}
+			runReqX(f[1], segs, nil, false)
+		}
 	}})
 }
 
 func genC04(tier string, seed uint64) {
 	r := NewRng(seed ^ 0xc04)
+	genC04Req(tier, NewRng(seed^0xc04e))
 	gens := []struct {
 		svc string
 		gen func(*Rng) []unit
